@@ -6,10 +6,10 @@ import (
 	"encoding/json"
 	"errors"
 	"fmt"
-	"time"
 	"os"
 	"sort"
 	"strings"
+	"time"
 
 	"github.com/corestario/kyber/encrypt/ecies"
 	"github.com/corestario/kyber/pairing/bls12381"
@@ -275,6 +275,26 @@ func runC18(w *World, tier string) (bool, interface{}) {
 				return
 			}
 			kind := c18Kinds[w.Tape.Choose(len(c18Kinds), "kind")]
+			if w.Tape.Bool(1, 6, "replayEarlier") {
+				// a well-formed message at the wrong moment: an earlier genuine message of
+				// the round posted again unchanged (duplicate confirmation, a proposal while
+				// a batch is running, ...). Whenever the node refuses it, nothing may change.
+				var cands []storage.Message
+				for _, e := range w.Board.Msgs {
+					if e.DkgRoundID == m.DkgRoundID && w.Board.Injected[e.Offset] == nil {
+						cands = append(cands, e)
+					}
+				}
+				if len(cands) == 0 {
+					return
+				}
+				e := cands[w.Tape.Choose(len(cands), "earlier")]
+				injected++
+				kinds = append(kinds, "earlier-genuine-message-again@"+e.Event)
+				w.Stats.Fault("malformed-earlier-genuine-message-again")
+				w.Board.InjectMsg(e, &Inject{Kind: "earlier-genuine-message-again", Expect: "no-crash"})
+				return
+			}
 			if m.Event != string(types.ReinitDKG) && m.Event != "signature_reconstructed" && w.Tape.Bool(1, 4, "viaReinit") {
 				// the second unauthenticated door: a reinitialisation message for an
 				// unused round id. Its embedded log (this round's genuine messages,
